@@ -5,7 +5,9 @@ package main
 import (
 	"time"
 
+	"fmt"
 	"verif/lib/ev"
+
 	"verif/lib/maph"
 	"verif/lib/seqmc"
 )
@@ -20,6 +22,18 @@ func main() {
 	if !res.Exhaustive {
 		r.MarkCapped()
 	}
+	// Large-map family: scripted single-goroutine histories over 5..200 keys (promotion thresholds
+	// that depend on the size of the dirty map, tombstones left behind in a large read map,
+	// re-creation of the dirty map), compared with map[K]V after every phase and at the end.
+	famCalls := 0
+	for _, n := range []int{5, 9, 17, 33, 63, 64, 65, 100, 129, 200} {
+		for pat := 0; pat < 6; pat++ {
+			if msg := bigMap(n, pat, &famCalls); msg != "" {
+				r.Report(ev.Violation{Sig: "family|large-map", Msg: msg, Replay: map[string]any{"family": "large-map", "keys": n, "pattern": pat}})
+			}
+		}
+	}
+	r.Set("large_size_family_calls", famCalls)
 	r.Set("states", res.States)
 	r.Set("transitions", res.Transitions)
 	r.Set("max_depth", res.MaxDepth)
@@ -27,4 +41,118 @@ func main() {
 	r.Set("keys", keys)
 	r.Sample(map[string]any{"sequential": "Store(0,1) Load(0) Delete(0) Store(1,1) -> key 0 expunged, then Store(0,2) must re-enter the dirty map"})
 	r.Finish()
+}
+
+// bigMap runs one scripted history; pat selects which keys are deleted and how promotion is forced.
+func bigMap(n, pat int, calls *int) string {
+	h := maph.New(n + 2)
+	do := func(name string, a, b int) string {
+		*calls++
+		if ev.Tracing() {
+			ev.Trace(map[string]any{"family": "large-map", "keys": n, "pattern": pat, "op": name, "a": a, "b": b})
+		}
+		if f := h.Apply(seqmc.Op{Name: name, A: a, B: b}); f != nil {
+			return fmt.Sprintf("large-map history (%d keys, pattern %d): %s", n, pat, f.Msg)
+		}
+		return ""
+	}
+	promote := func(kind int) string {
+		if kind%2 == 0 {
+			return do("Range", 0, 0)
+		}
+		for i := 0; i <= n+1; i++ { // misses on a key that is never stored
+			if m := do("Load", n+1, 0); m != "" {
+				return m
+			}
+		}
+		return ""
+	}
+	check := func() string {
+		for k := 0; k <= n; k++ {
+			if m := do("Load", k, 0); m != "" {
+				return m
+			}
+		}
+		return do("Range", 0, 0)
+	}
+	deleted := func(k int) bool {
+		switch pat {
+		case 0:
+			return true
+		case 1:
+			return k%2 == 0
+		case 2:
+			return k >= n/2
+		case 3:
+			return k < n/2
+		case 4:
+			return k%7 == 3
+		}
+		return k == n-1 || k == 0
+	}
+	steps := []func() string{
+		func() string { // fill
+			for k := 0; k < n; k++ {
+				if m := do("Store", k, 1); m != "" {
+					return m
+				}
+			}
+			return ""
+		},
+		func() string { return promote(pat) },
+		func() string { // delete a subset: tombstones in the read map
+			for k := 0; k < n; k++ {
+				if deleted(k) {
+					name := "Delete"
+					if k%3 == 0 {
+						name = "LoadAndDelete"
+					}
+					if m := do(name, k, 0); m != "" {
+						return m
+					}
+				}
+			}
+			return ""
+		},
+		func() string { return do("Store", n, 2) }, // a new key: the dirty map is re-created
+		func() string { // bring the deleted keys back
+			for k := 0; k < n; k++ {
+				if deleted(k) {
+					name := "Store"
+					if k%2 == 1 {
+						name = "LoadOrStore"
+					}
+					if m := do(name, k, 2); m != "" {
+						return m
+					}
+				}
+			}
+			return ""
+		},
+		func() string { return promote(pat + 1) },
+		check,
+		func() string { // a second round with the roles swapped
+			for k := 0; k < n; k++ {
+				if !deleted(k) {
+					if m := do("LoadAndDelete", k, 0); m != "" {
+						return m
+					}
+				}
+			}
+			if m := do("LoadOrStore", n, 1); m != "" {
+				return m
+			}
+			if m := do("Store", n+1, 1); m != "" {
+				return m
+			}
+			return promote(pat)
+		},
+		check,
+	}
+	for _, st := range steps {
+		if m := st(); m != "" {
+			return m
+		}
+	}
+	return ""
 }
